@@ -187,6 +187,10 @@ def do_replay(prop: str, path: str) -> int:
         from .props import persist_loops
         persist_loops.replay(case)
         return 0
+    if "churn" in case:
+        # C16: a registry of realistic size changed by a concurrent task k loop iterations after an anchor
+        from .props import churn
+        return churn.replay(case)
     if "interference" in case:
         from .props import codec_interference
         codec_interference.replay(case)
